@@ -507,6 +507,8 @@ private:
         void stackDown(int count = 1)
         {
             stackLevel -= count;
+            if(stackLevel < -1)
+                stackLevel = -1; // -1 is "no loop entered", unbalanced loop ends must not go below
         }
 
         LoopStackEntry &getCurStack()
